@@ -12,6 +12,8 @@ import sys, os, json, subprocess, time, shutil, hashlib, array, glob, signal
 ROOT = os.path.dirname(os.path.abspath(__file__))
 REPO = os.environ.get("VERIF_REPO", "/repo")
 NPROC = int(os.environ.get("VERIF_WORKERS", str(min(16, os.cpu_count() or 4))))
+BUILD = os.environ.get("VERIF_BUILD", os.path.join(ROOT, "build"))      # overridable so that self-tests can run against a scratch copy in isolation
+OUT = os.environ.get("VERIF_OUT", ROOT)
 
 # ---------------------------------------------------------------------------------------------------------------
 # per property: list of batches (engine, variant, profile, quick runs, thorough runs)
@@ -24,6 +26,7 @@ PLANS = {
     "C06": [("heapsim", "asan", "misuse", 50000, 2000000), ("heapsim", "noguard", "misuse", 15000, 500000), ("heapsim", "asan", "accounting", 8000, 200000)],
     "C07": [("runsim", "asan", "leaks", 50000, 1500000), ("runsim", "noexc", "leaks", 15000, 500000)],
     "C08": [("mocksim", "asan", "verdict", 24000, 800000), ("mocksim", "asan", "cfront", 4000, 100000)],
+    "C10": [("thrsim", "tsi", "threads", 6000, 400000), ("thrsim", "tsi", "locked_misuse", 3000, 150000)],
     "C11": [("runsim", "asan", "process_syn", 60000, 2000000), ("runsim", "plain", "process", 8000, 300000), ("runsim", "noexc", "process_syn", 15000, 400000)],
     "C14": [("heapsim", "asan", "diagnostics", 30000, 1000000), ("heapsim", "noguard", "diagnostics", 10000, 300000), ("heapsim", "asan", "accounting", 8000, 200000), ("runsim", "asan", "leaks", 10000, 300000)],
     "C15": [("heapsim", "asan", "oom", 50000, 2000000), ("heapsim", "noguard", "oom", 15000, 500000)],
@@ -60,7 +63,15 @@ COMPONENTS["mocksim"] = {
     "real": ["src/CppUTestExt/MockSupport.cpp, MockActualCall.cpp, MockExpectedCall.cpp, MockExpectedCallsList.cpp, MockNamedValue.cpp, MockFailure.cpp, MockSupportPlugin.cpp, MockSupport_c.cpp", "TestRegistry/UtestShell/TestResult running each scenario as a real test with the real default and C failure reporters (exception and longjmp termination)"],
     "simulated": ["caller tasks and their interleaving (seeded cooperative scheduler over per-task call lists)", "test programs (scenario interpreter over the C++ and the C front end)", "console stream"],
 }
+COMPONENTS["thrsim"] = {
+    "real": ["src/CppUTest/MemoryLeakWarningPlugin.cpp thread-safe wrappers and switching, MemoryLeakDetector.cpp, TestMemoryAllocator.cpp, SimpleMutex.cpp (all four instrumented: every load/store is a yield point and feeds the race detector)", "TestHarness_c.cpp malloc wrappers (not instrumented)", "real pthreads (2-17 per run), glibc setjmp/longjmp for the misuse path, a real test through TestRegistry for the misuse-while-locked scenario"],
+    "simulated": ["thread scheduling (baton passing: one runnable thread at a time, seeded preemption at yield points, recorded schedule)", "the mutex (PlatformSpecificMutex* -> owner-tracking SimMutex with deadlock and self-deadlock detection)",
+                  "the platform heap (fixed-address bump arena, zeroed per run)", "the TSan runtime (own __tsan_* callbacks: vector-clock happens-before detector whose only edges are the simulated mutex, thread start/join and block hand-off)", "MemoryLeakFailure (recording reporter) in the threads profile; the framework's own longjmp reporter in the locked_misuse profile"],
+}
 RULES = {
+    "thrsim": "one evaluation = one run of 2-17 real threads, each executing a generated script of 5-200 allocation operations (new, new[], nothrow forms, malloc, realloc incl. realloc(NULL), free, hand-off of blocks to other threads) with the thread-safe overloads on, "
+              "under a seeded scheduler that may preempt at every instrumented memory access, lock operation and heap call (probability 1/2..1/64 per point, optionally always around lock edges); locked_misuse: a real test on thread 0 misuses memory while workers allocate. "
+              "Non-trivial = more than two context switches; distinct = distinct hashes of the interleaving (sequence of operations and context switches), i.e. distinct schedules.",
     "mocksim": "one evaluation = one generated registry of 1-3 mocked scenarios (up to 12 expectations over 8 functions with 0-3 typed parameters, objects, output parameters, return values unique per class, expectNCalls 0-4, strict order, ignoreOtherCalls, "
                "ignoreOtherParameters, scopes) whose matching calls are spread over 1-4 caller tasks, with at most one injected deviation, executed under 2-8 schedules (cfront: 2 schedules through both front ends). "
                "Non-trivial = a deviation was injected; distinct = distinct hashes of (failure counts, first lines, per-call return/output logs).",
@@ -75,6 +86,8 @@ RULES = {
 }
 
 ASSUMPTIONS = {
+    "thrsim": ["all synchronisation of the detector goes through the PlatformSpecificMutex* seam", "the detector's state = everything the four instrumented translation units touch; the C harness's malloc_count statistic (TestHarness_c.cpp) is not detector state and not instrumented",
+               "misuse is injected on the test-running thread only (a longjmp from another thread into the runner's stack is undefined in any implementation)", "preemption granularity is the instrumented loads/stores, not machine instructions of glibc", "seeded sampling of schedules: evidence, not proof"],
     "mocksim": ["scenarios outside the property's unambiguity precondition (object/no-object mix, ignoreOtherParameters next to other classes, expectNoCall next to expectations) are skipped by the oracle",
                 "where two diagnoses are defensible for a surplus call the oracle accepts a set; verdict, exactly-one-failure and order independence are never relaxed",
                 "C19 compares the C execution with the C++ execution of the same scenario and schedule (the C++ interface is the reference); onObject does not exist in the C interface and is not generated there", "seeded sampling: evidence, not proof"],
@@ -114,7 +127,7 @@ def sync_build(variants):
     """make's mtime tracking plus a content-hash check, so that a tree edited with preserved or older mtimes is still rebuilt"""
     fp = repo_fingerprint()
     for v in variants:
-        stamp = os.path.join(ROOT, "build", v, "srchash.json")
+        stamp = os.path.join(BUILD, v, "srchash.json")
         old = {}
         try:
             old = json.load(open(stamp))
@@ -123,22 +136,23 @@ def sync_build(variants):
         if old != fp:
             changed = [k for k in set(old) | set(fp) if old.get(k) != fp.get(k)]
             hdr = any(k.endswith(".h") for k in changed)
-            objdir = os.path.join(ROOT, "build", v, "repo")
+            objdir = os.path.join(BUILD, v, "repo")
             if hdr:
-                shutil.rmtree(os.path.join(ROOT, "build", v), ignore_errors=True)
+                shutil.rmtree(os.path.join(BUILD, v), ignore_errors=True)
             else:
                 for k in changed:
                     o = os.path.join(objdir, os.path.relpath(k, "src"))[:-4] + ".o"
                     if os.path.exists(o):
                         os.remove(o)
-            os.makedirs(os.path.join(ROOT, "build", v), exist_ok=True)
+            os.makedirs(os.path.join(BUILD, v), exist_ok=True)
             json.dump(fp, open(stamp, "w"))
 
 def build(targets):
     variants = sorted({t.split("/")[1] for t in targets})
     sync_build(variants)
     t0 = time.time()
-    p = sh(["make", "-C", ROOT, "-j%d" % NPROC, "REPO=" + REPO] + targets, stdout=subprocess.PIPE, stderr=subprocess.STDOUT, text=True)
+    targets = [os.path.join(BUILD, t[len("build/"):]) if t.startswith("build/") else t for t in targets]
+    p = sh(["make", "-C", ROOT, "-j%d" % NPROC, "REPO=" + REPO, "B=" + BUILD] + targets, stdout=subprocess.PIPE, stderr=subprocess.STDOUT, text=True)
     if p.returncode != 0:
         log(p.stdout[-6000:])
         log("BUILD-FAILED: the engines do not compile against %s" % REPO)
@@ -147,7 +161,7 @@ def build(targets):
     return True
 
 def engine_path(engine, variant):
-    return os.path.join(ROOT, "build", variant, engine)
+    return os.path.join(BUILD, variant, engine)
 
 # ---------------------------------------------------------------------------------------------------------------
 def load_known():
@@ -319,11 +333,11 @@ def check(prop, tier):
     total_runs = 0; distinct = 0; sim_ms = 0; counters = {}; samples = []; reruns = 0; mism = 0; batches = []
     violations = []; known_seen = {}; harness_problems = []
     thorough_cap = float(os.environ.get("VERIF_THOROUGH_CAP_S", "900"))
-    replay_dir = os.path.join(ROOT, "replays"); os.makedirs(replay_dir, exist_ok=True)
+    replay_dir = os.path.join(OUT, "replays"); os.makedirs(replay_dir, exist_ok=True)
     for bi, (engine, variant, profile, qn, tn) in enumerate(plan):
         runs = qn if tier == "quick" else tn
         cap = 0 if tier == "quick" else thorough_cap / max(1, len(plan))
-        outdir = os.path.join(ROOT, "work", prop, tier, "%s_%s_%s" % (engine, variant, profile))
+        outdir = os.path.join(OUT, "work", prop, tier, "%s_%s_%s" % (engine, variant, profile))
         t0 = time.time()
         res = run_batch(prop, engine, variant, profile, runs, seed, outdir, cap)
         wall = time.time() - t0
@@ -408,8 +422,8 @@ def check(prop, tier):
     evid["assumptions"] = ASSUMPTIONS.get(engine0, [])
     evid["wall_s"] = round(wall, 2)
     evid["violations"] = len(violations)
-    os.makedirs(os.path.join(ROOT, "evidence"), exist_ok=True)
-    json.dump(evid, open(os.path.join(ROOT, "evidence", prop + ".json"), "w"), indent=1)
+    os.makedirs(os.path.join(OUT, "evidence"), exist_ok=True)
+    json.dump(evid, open(os.path.join(OUT, "evidence", prop + ".json"), "w"), indent=1)
     for k in known_seen.values():
         log("KNOWN-FINDING: property=%s %s" % (prop, k.get("what", k["id"])))
     if harness_problems:
@@ -449,7 +463,7 @@ def determinism(engine, variant, profile, n):
         return 2
     tables = []
     for W in (4, 16, 7):
-        outdir = os.path.join(ROOT, "work", "determinism", "%s_%s_%s_w%d" % (engine, variant, profile, W))
+        outdir = os.path.join(OUT, "work", "determinism", "%s_%s_%s_w%d" % (engine, variant, profile, W))
         run_batch("", engine, variant, profile, n, int(os.environ.get("VERIF_SEED", "1")), outdir, 0, all_hashes=True, workers=W)
         t = {}
         for f in glob.glob(os.path.join(outdir, "w*.allhashes")):
